@@ -56,6 +56,24 @@ def describe(ranks):
     return ' < '.join('='.join(sorted(inv[r])) for r in sorted(inv))
 
 
+_PAIR_TABLES = {}
+
+
+def _pair_table(terms):
+    """difference normal form -> (x, y) for all ordered pairs of named terms (cached per term set)."""
+    key = tuple(sorted((n, t.fingerprint()) for n, t in terms.items()))
+    tab = _PAIR_TABLES.get(key)
+    if tab is None:
+        tab = {}
+        names = list(terms)
+        for x in names:
+            for y in names:
+                if x is not y:
+                    tab.setdefault(terms[x] - terms[y], (x, y))
+        _PAIR_TABLES[key] = tab
+    return tab
+
+
 class OrderCase(Hooks):
     """Decision oracle for one order type. groups: list of (terms: name->Sym, ranks: name->int);
     comparisons are decided within a group."""
@@ -66,11 +84,10 @@ class OrderCase(Hooks):
 
     def find_pair(self, d):
         for terms, ranks in self.groups:
-            names = list(terms)
-            for x in names:
-                for y in names:
-                    if x is not y and terms[x] - terms[y] == d:
-                        return ranks[x], ranks[y]
+            tab = _pair_table(terms)
+            hit = tab.get(d)
+            if hit is not None:
+                return ranks[hit[0]], ranks[hit[1]]
         return None
 
     def decide(self, cond, st):
